@@ -518,6 +518,15 @@ pub fn run(ctx: &RunCtx) -> i32 {
         judge_overlap(r, "C07", &rt, prt.as_ref(), &svc_cfg(&case), &kinds, &reqs, g.u64());
     });
     total.merge(over);
+    // forgeries that follow a valid request on the same service (the leg of C05, judged by the reference verifier): a
+    // request verified with what an earlier request left behind would run hook and backend under somebody else's identity
+    let mut forg = crate::monitor::c05::forgery_leg(ctx, &crate::monitor::c05::secrets(ctx.seed), ctx.tier.sz(300, 10_000));
+    let vs = std::mem::take(&mut forg.violations);
+    forg.violation_count.clear();
+    total.merge(forg);
+    for v in vs {
+        total.violated(format!("C07/forgery/{}", v.signature.trim_start_matches("C05/")), json!({"kind": "c05-case", "inner": v.witness}));
+    }
     // POST forms (PostObject is not in the smithy model)
     let secrets = keys();
     let mut g = Rng::new(ctx.seed);
@@ -550,6 +559,10 @@ pub fn replay(v: &Value) -> i32 {
     let w = &v["witness"];
     if w["kind"] == "overlap" {
         return super::replay_verdict("C07", &replay_overlap("C07", w));
+    }
+    if w["kind"] == "c05-case" {
+        println!("note: a forgery witness is judged by the reference verifier of C05 (in-session witnesses name the earlier requests)");
+        return crate::monitor::c05::replay(&json!({"witness": w["inner"]}));
     }
     let mut r = Report::new();
     let rt = new_runtime();
